@@ -104,6 +104,11 @@ func listenScenario(sp listenSpec) *explore.Scenario {
 				finished++
 			},
 		}
+		// the finish hook is optional: without it everything else is the same
+		withHook := vs.Choose(2, 0, "OnListenForReplyFinished configured") == 0
+		if !withHook {
+			cfg.OnListenForReplyFinished = nil
+		}
 		if strings.HasPrefix(sp.Caller, "timeout") {
 			d := 10 * time.Second
 			cfg.ListenForReplyTimeout = &d
@@ -176,9 +181,9 @@ func listenScenario(sp listenSpec) *explore.Scenario {
 		// (no draining here: the listener has to finish whether or not the caller reads)
 		closed := vs.PeekClosed(ch)
 		if !closed {
-			vs.Fail("listener-terminates", "caller %q: reply channel not closed at quiescence after the request was cancelled/timed out", sp.Caller)
+			vs.Fail("listener-terminates", "caller %q (finish hook configured: %v): reply channel not closed at quiescence after the request was cancelled/timed out", sp.Caller, withHook)
 		}
-		if finished != 1 {
+		if withHook && finished != 1 {
 			vs.Fail("finished-hook-once", "caller %q: OnListenForReplyFinished ran %d times", sp.Caller, finished)
 		}
 		if l := leaked(); len(l) > 0 {
